@@ -11,7 +11,7 @@ KNOWN = os.path.join(VERIF, 'known_findings.txt')
 sys.path.insert(0, os.path.dirname(os.path.abspath(__file__)))
 import verus_engine  # noqa: E402
 
-KANI_FLAGS = ['--no-default-features', '--lib', '-Z', 'stubbing', '-Z', 'function-contracts',
+KANI_FLAGS = ['--no-default-features', '--lib', '-Z', 'stubbing', '-Z', 'function-contracts', '-Z', 'restrict-vtable',
               '-Z', 'unstable-options', '--no-overflow-checks', '--output-format', 'terse']
 
 
